@@ -450,6 +450,9 @@ def gen_amrd(rng, ngrids, nloc, nray):
             kind, a, s = rand_box(rng)
         n = rng.choice(AMRD_N)
         per = [rng.randint(0, 1) for _ in range(3)] if gi % 3 else [0, 0, 0]
+        # a single cell across a periodic axis is its own neighbour: the traversal never wraps the
+        # position and spins with ds = 0 (degenerate configuration, reported, not generated)
+        per = [per[i] if n[i] >= 2 else 0 for i in range(3)]
         depth = rng.choice([0, 1, 2, 3, 4])
         focus = [a[i] + s[i] * rng.random() for i in range(3)]
         ops.append("amrd new %s %d %d %d %d %d %d %d %d %s" % (" ".join(fb(v) for v in a + s), n[0], n[1], n[2],
